@@ -3,6 +3,26 @@ modules to run as model check / generator, how many shards, evidence text)."""
 
 TX_ASSUME = ["sampled over 256-bit field values (exhaustive over structure, boundaries enumerated by the spec)"]
 
+
+# Spec -> implementation for the concurrent vanity search: every complete behaviour of MC_Vanity (sampled by a stride,
+# canonical in the order of the workers' first requests) becomes a schedule that the LD_PRELOAD shim enforces on the
+# real binary (spec/Gen_C18sched.tla).  Bounds: N workers / at most R granted requests.
+def _sched(ns_quick, ns_thorough):
+    out = []
+    for n, r in ns_thorough:
+        quick = dict(ns_quick).get(n)
+        if quick is not None and quick == r:
+            out.append(dict(cfg="Gen_C18sched_N%d.cfg" % n, workers=8, env=dict(VERIF_VANITY_REQ=str(r))))
+        else:
+            if quick is not None:
+                out.append(dict(cfg="Gen_C18sched_N%d.cfg" % n, workers=8, env=dict(VERIF_VANITY_REQ=str(quick)), tiers=("quick",)))
+            out.append(dict(cfg="Gen_C18sched_N%d.cfg" % n, workers=16, env=dict(VERIF_VANITY_REQ=str(r)), tiers=("thorough",)))
+    return out
+
+
+SCHED_FULL = dict(module="Gen_C18sched", behaviours=_sched([(0, 4), (1, 4), (2, 4), (3, 3)], [(0, 5), (1, 5), (2, 5), (3, 4)]))
+SCHED_SMALL = dict(module="Gen_C18sched", behaviours=_sched([(0, 4), (1, 4), (2, 4)], [(0, 5), (1, 5), (2, 5)]))
+
 CHECKS = {
     "C06": dict(
         level="model_checking",
@@ -53,10 +73,13 @@ CHECKS = {
         level="model_checking",
         mc=[dict(module="MC_Bip39", workers=8)] + [dict(module="MC_Vanity", cfg="MC_Vanity_N%d.cfg" % n, tag="MC_Vanity_N%d" % n, workers=16) for n in (0, 1, 2, 3)],
         gen=[dict(module="Gen_C12", slices=dict(quick=8, thorough=8)),
-             dict(module="Gen_C12cli", slices=dict(quick=8, thorough=8))],
+             dict(module="Gen_C12cli", slices=dict(quick=8, thorough=8)), SCHED_SMALL],
         rule="Gen_C12: generation through the interposed getentropy: 960 one-hot feeds (every entropy bit of every "
              "size), pattern/PRNG feeds, every requested length 0..40 with a working and a refusing source (refusal "
-             "at request 0 and at 0..3), real OS entropy with logged grants",
+             "at request 0 and at 0..3), real OS entropy with logged grants; Gen_C12cli: the real binary under the shim with "
+             "refusals at chosen requests; Gen_C18sched: behaviours of MC_Vanity (0..2 workers) replayed as enforced "
+             "schedules in the real binary: every placement of a refusal among the threads' requests that the model "
+             "reaches within its bounds",
         assumptions=["in-process link-time interposition of getentropy observes exactly what rand::get_entropy receives"],
     ),
     "C03": dict(
@@ -203,7 +226,8 @@ CHECKS = {
               dict(apalache="VanityInd", tag="VanityInd_N3", cinit="ConstInit", init="Init", indinit="IndInit", inv="IndInv"),
               dict(apalache="VanityInd", tag="VanityInd_N6", cinit="ConstInit6", init="Init", indinit="IndInit", inv="IndInv",
                    tiers=("thorough",))],
-        gen=[dict(module="Gen_C18", slices=dict(quick=8, thorough=8), profiles=dict(quick=["dev"], thorough=["dev", "release"]))],
+        gen=[dict(module="Gen_C18", slices=dict(quick=8, thorough=8), profiles=dict(quick=["dev"], thorough=["dev", "release"])),
+             SCHED_FULL],
         rule="MC_Vanity: all interleavings of main + N in 0..3 (thorough: 0..4) workers + channel + granting/refusing entropy environment "
              "(3 abstract candidates, every matching subset, <= 4 (quick) / 5 (thorough) requests): a printed phrase is a "
              "granted match, the judge's observer fold admits every behaviour (no false alarm), pending messages lead "
@@ -212,7 +236,12 @@ CHECKS = {
              "granted match in every reachable state; MC_Prefix: prefix grammar over all strings <= 4 over "
              "{0..9 a f A F g x}; Gen_C18: real searches under the entropy shim: 22 single digits x -j {0,1,2,16}, "
              "two-digit (three-digit thorough) prefixes in lower/upper/mixed case, vanity password/index/path/length "
-             "variants, repetitions, non-hex prefixes and unusable selectors",
+             "variants, repetitions, non-hex prefixes and unusable selectors; Gen_C18sched (spec -> implementation): the "
+             "complete behaviours of MC_Vanity for 0..3 workers (<= 4 requests, 3 with 3 workers; thorough 5 / 4), canonical "
+             "in the order of the workers' first requests, every behaviour that prints and every 9th (thorough 3rd) that "
+             "fails, are REPLAYED in the real binary: the shim answers the threads in the model's order with spec-made "
+             "entropy whose phrase matches the prefix exactly when the model's candidate does; the run must be able to follow "
+             "the schedule, must exit when the behaviour ends, and is then validated like every other run",
         assumptions=["the LD_PRELOAD shim logs grants in an order consistent with what each thread observed (sequence "
                      "number and line written under one mutex after the bytes are in the caller's buffer)",
                      "schedules of the real binary are sampled; exhaustive interleaving results are for the model"],
@@ -356,7 +385,8 @@ MANIFEST_TEXT = {
              "whose selected account's address has the requested nibbles, that every request is one the model's worker "
              "would make, and that bad prefixes are refused.",
         design_ref="6 (C18)", note=_TRUST,
-        technique="TLC exhaustive interleaving model check + trace validation of real concurrent runs via an entropy shim"),
+        technique="TLC exhaustive interleaving model check + replay of TLC-generated behaviours as enforced thread schedules "
+                  "in the real binary + trace validation of real concurrent runs via an entropy shim"),
     "C17": dict(
         text="The specification has no crash transition (library calls return Ok/Err, every pipeline of Wallet.tla ends in "
              "printed/failed/open).  TLC validates every recorded event of the union of the generated workloads - boundary "
